@@ -27,6 +27,9 @@ def check(run):
     fa = frames.emit(run, lambda v: v.vc == "V1" or (v.vc == "V8" and v.key in ("decoded-test", "decoded-arm/recurse-on-hit", "two-arms", "decoded-arm/keeps-node")) or
                      (v.vc == "V2" and v.key == "generator-shape") or (v.vc == "V6") or v.vc == "V8c",
                      rule_of=lambda v: "R1-fresh-recursive-scan" if v.vc in ("V1", "V8", "V8c") else ("R3-value-only" if v.vc == "V2" else "R2-read-set"))
+    # the decoded test compares the hit with hit.original: `original` must mean "the covered slice of the parent" for every parent
+    from .. import noderules
+    noderules.check_original(run, "R1-fresh-recursive-scan")
     sn = fa.sn
     mod = sn.module
     N = fa.R.NODE
